@@ -259,6 +259,8 @@ impl BloomFilter {
 
     /// Add a key to the Bloom filter.
     pub fn add<K: Hash>(&self, key: &K) {
+        #[cfg(feature = "neumann_verif")]
+        crate::verif_hooks::yield_point("store.bloom.add");
         for i in 0..self.num_hashes {
             let bit_index = self.hash_index(key, i);
             let block_index = bit_index / 64;
